@@ -63,10 +63,10 @@ let labels_s ls = if ls = [] then "-" else String.concat "," (List.map label_s l
 (* index of worker w in the un-notified waiters; a worker that is not there gives an
    index beyond the list, which the model refuses *)
 let index_of (w : int) (l : nat list) : int =
-  let rec go i = function [] -> 1000000 | x :: r -> if ni x = w then i else go (i + 1) r in go 0 l
+  let rec go i = function [] -> List.length l | x :: r -> if ni x = w then i else go (i + 1) r in go 0 l
 
 let waiter (s : state) (tok : string) : nat =
-  if tok = "-" then (if s.qwait = [] then O else nat_of_int 1000000)
+  if tok = "-" then (if s.qwait = [] then O else nat_of_int (List.length s.qwait))
   else nat_of_int (index_of (int_of_string tok) s.qwait)
 
 let choice_of (s : state) (tok : string) : choice =
